@@ -31,18 +31,6 @@ thread_local! {
     static STATE: RefCell<AnchorState> = RefCell::new(AnchorState::default());
 }
 
-pub(crate) fn reset() {
-    STATE.with(|state| {
-        let mut s = state.borrow_mut();
-        s.stack.clear();
-        s.store.rc.clear();
-        s.store.arc.clear();
-        s.store.rc_recursive.clear();
-        s.store.arc_recursive.clear();
-        s.in_progress.clear();
-    });
-}
-
 pub(crate) fn with_anchor_context<R>(
     kind: AnchorKind,
     anchor: Option<usize>,
@@ -245,14 +233,19 @@ pub(crate) fn get_arc_recursive<T: Any + Send + Sync>(id: usize) -> Result<Optio
 }
 
 pub(crate) fn with_document_scope<R>(f: impl FnOnce() -> R) -> R {
-    reset();
-    struct ResetGuard;
-    impl Drop for ResetGuard {
+    // Each document is deserialized against its own, initially empty, anchor state. The state
+    // of a caller - a parse that is still in progress when a user `Deserialize` impl starts
+    // another one - is set aside and put back when this document is done (also on unwind).
+    let saved = STATE.with(|state| std::mem::take(&mut *state.borrow_mut()));
+    struct RestoreGuard(Option<AnchorState>);
+    impl Drop for RestoreGuard {
         fn drop(&mut self) {
-            reset();
+            if let Some(saved) = self.0.take() {
+                STATE.with(|state| *state.borrow_mut() = saved);
+            }
         }
     }
-    let guard = ResetGuard;
+    let guard = RestoreGuard(Some(saved));
     let result = f();
     drop(guard);
     result
